@@ -255,25 +255,54 @@ def gen_case(seed: int, i, via: str = "api") -> dict:
     n_files = n - extra if entry == "dir" else n
     sinks = {"py": 0, "ts": 0, "rs": 0}
     files = []
+    force_dup0 = 0      # a shebang script / odd-cased module shares block 0 with the next plain .py module
     for j in range(max(0, n_files)):
-        lang = r.choice(["py", "py", "py", "ts", "js", "rs"])
+        lang = r.choice(["py", "py", "py", "py", "ts", "js", "rs", "other"])
         dups = [g for g in range(3) if crossfile and r.random() < 0.25]
         strs = [s for s in range(4) if crossfile and r.random() < 0.15]
         sub = r.choice(["", "", "pkg/", "pkg/inner/"])
+        if lang == "other":
+            # mapped extensions without an analyzer, and files of unknown type that hold Python text: no language, no findings
+            kind = r.choice(["java", "go", "txt", "md", "noext", "sh"])
+            if kind == "java":
+                files.append([f"{sub}Mod{j}.java", f"public class Mod{j} {{\n  int f(int a) {{ return a + 4242; }}\n}}\n"])
+            elif kind == "go":
+                files.append([f"{sub}mod_{j}.go", f"package p\n\nfunc F{j}(a int) int {{\n\treturn a + 4242\n}}\n"])
+            else:
+                text = _py_file(r, j, dups or ([0] if crossfile else []), strs)
+                name = {"txt": f"notes_{j}.txt", "md": f"notes_{j}.md", "noext": f"data_{j}", "sh": f"run_{j}"}[kind]
+                files.append([sub + name, ("#!/bin/sh\n" if kind == "sh" else "") + text])
+            continue
         fam = "ts" if lang == "js" else lang
-        if r.random() < 0.22 and sinks[fam] < 2:
+        # every way a file gets its language: each mapped extension in lower / upper / mixed case, a python shebang
+        ext = {"py": "py", "ts": r.choice(["ts", "ts", "tsx"]), "js": r.choice(["js", "js", "jsx"]), "rs": "rs"}[lang]
+        spell = r.random()
+        ext = ext if spell < 0.7 else ext.upper() if spell < 0.85 else ext[0].upper() + ext[1:]
+        shebang = lang == "py" and r.random() < 0.2
+        sink = r.random() < 0.22 and sinks[fam] < 2
+        if lang == "py" and crossfile:
+            if shebang or spell >= 0.7:
+                dups = sorted(set(dups) | {0})
+                force_dup0 += 1
+            elif force_dup0 and not sink:
+                dups = sorted(set(dups) | {0})
+                force_dup0 = 0
+        stem = ("sink" if sink else "mod" if not shebang else "tool") + f"_{j}"
+        name = f"{sub}{stem}" + ("" if shebang else f".{ext}")
+        if sink:
             sinks[fam] += 1
             text = {"py": SINK_PY, "ts": SINK_TS, "rs": SINK_RS}[fam].format(i=j)
-            files.append([f"{sub}sink_{j}.{lang}", text])
         elif lang == "py":
-            files.append([f"{sub}mod_{j}.py", _py_file(r, j, dups, strs)])
+            text = _py_file(r, j, dups, strs)
         elif lang in ("ts", "js"):
-            body = _ts_file(r, j, dups, strs)
+            text = _ts_file(r, j, dups, strs)
             if lang == "js":
-                body = body.replace(": number", "").replace(": any[]", "").replace(": any", "").replace(": string", "")
-            files.append([f"{sub}mod_{j}.{lang}", body])
+                text = text.replace(": number", "").replace(": any[]", "").replace(": any", "").replace(": string", "")
         else:
-            files.append([f"{sub}mod_{j}.rs", _rs_file(r, j)])
+            text = _rs_file(r, j)
+        if shebang:
+            text = r.choice(["#!/usr/bin/env python3\n", "#!/usr/bin/python\n", "#! /usr/bin/env python3.12\n"]) + text
+        files.append([name, text])
     parent = r.choice(PARENTS)
     # under an exclusion-named parent an absolute spelling makes both runs skip everything: mostly use the relative spellings there
     rel_w = 4 if parent not in ("", "tests", "test") else 1
@@ -674,7 +703,7 @@ def _summary(case, impl):
 
 def run(tier: str, seed: int, replay: str | None = None) -> int:
     chk = Check(PROP, tier, seed)
-    chk.rule = ("seeded multi-language projects (.py/.ts/.js/.rs, sub-directories; ordinary modules sharing function bodies (DRY) and string "
+    chk.rule = ("seeded multi-language projects (every mapped extension .py/.ts/.tsx/.js/.jsx/.rs/.java/.go in lower, upper and mixed case, extensionless scripts with a python shebang, files of unknown type holding Python text; sub-directories; ordinary modules sharing function bodies (DRY) and string "
                 "sets (stringly-typed) or nothing, plus 'kitchen sink' files that give every registered linter a finding, including findings "
                 "equal in every field) under generated configurations: explicit (constructor / assigned like --config / --config file) "
                 "incl. the boundary values {} / comment-only file / unrelated sections, next to a differing root .thailint.yaml / "
@@ -733,10 +762,13 @@ def run(tier: str, seed: int, replay: str | None = None) -> int:
         chk.dist("files_vs_threshold:" + ("at" if n == 2 * eff else "above" if above else "below"))
         chk.dist("order:" + ("controlled" if impl["ordered"] else "uncontrolled"))
         chk.dist("crossfile_report:" + ("nonempty" if impl["rep_full"] else "empty"))
+        if any(not Path(rel).suffix and text.startswith("#!") and "python" in text.split("\n")[0] for rel, text in case["files"]):
+            chk.dist("has_python_shebang_script:" + ("in_crossfile_report" if any(
+                not Path(v[1][1][1]).suffix for v in impl["rep_full"] if len(v) > 1 and v[1][1][0] in ("s", "p")) else "yes"))
         chk.dist("parent_loop_visits:" + ("all" if all(impl["seen"]) else "none" if not any(impl["seen"]) else "some"))
         chk.dist("config:" + ("invalid" if impl.get("errors") else "valid"))
         for rel in impl["files"]:
-            chk.dist("ext:" + (Path(rel).suffix or Path(rel).name))
+            chk.dist("ext:" + (Path(rel).suffix or ("(none)" if not Path(rel).name.startswith(".") else Path(rel).name)))
         chk.sample(_summary(case, impl), 4)
         for note in impl["notes"]:
             if note not in chk.notes:
